@@ -321,8 +321,9 @@ class Interp:
                 env[k] = ("phi", c, a, b)
         ov = {}
         for k in set(s1.ov) | set(s2.ov):
-            a = s1.ov.get(k, ("attr", k[0], k[1]))
-            b = s2.ov.get(k, ("attr", k[0], k[1]))
+            dflt = ("sub", k[0], C(k[1][1])) if isinstance(k[1], tuple) else ("attr", k[0], k[1])
+            a = s1.ov.get(k, dflt)
+            b = s2.ov.get(k, dflt)
             ov[k] = a if a == b else ("phi", c, a, b)
         # both branches fall through: the condition is no longer part of the pc, but
         # what either branch established (e.g. an inner early exit) is kept as a disjunction
@@ -354,23 +355,27 @@ class Interp:
             if saved[n] is not None:
                 body_st.env[n] = ("loopcarried", n, lid)
         elem = ("elem", it, lid)
-        if it[0] == "listobj":
-            h = self.heap[it[1]]
-            apps = [d for d in h["dyn"] if d[0] == "append"]
-            if not h["elts"] and len(apps) == 1 and len(h["dyn"]) == 1 and len(apps[0][1]) == 1:
-                # a list built by a single append inside a loop: iterating over it visits
-                # the appended term once per producer iteration
-                elem = apps[0][1][0]
-                self.loops[lid]["via_append"] = True
+        src = self._iter_source(it)
+        if src is not None:
+            # iterating a list that was built by one append in producer loops, or an identity
+            # comprehension `[x for x in A if P(x)]`: visit the producer's element under the
+            # producer's loop markers and conditions (the consumer loop is transparent)
+            elem, extra = src
+            self.loops[lid]["via_producer"] = True
+            body_st.pc = st.pc + tuple(extra)
+            if not any(c[0] == "inloop" for c in extra):
+                body_st.pc = body_st.pc + (("inloop", lid),)
         self._assign(s.target, elem, body_st, act, s)
         nret = len(act.returns)
         nev = len(self.events)
         end = self._block(s.body, body_st, act)
         self.loops[lid]["events"] = (nev, len(self.events))
         post_pc = st.pc
+        first = body_st.pc[len(st.pc)] if len(body_st.pc) > len(st.pc) else ("inloop", lid)
+        mk = first if first[0] == "inloop" else ("inloop", lid)
         for rpc, _ in act.returns[nret:]:
-            inner = self._after_marker(rpc, ("inloop", lid))
-            post_pc = post_pc + (("not", ("exists", lid, inner)),)
+            inner = self._after_marker(rpc, mk)
+            post_pc = post_pc + (("not", ("exists", mk[1], inner)),)
         for n in assigned:
             fin = end.env.get(n) if end is not None else None
             st.env[n] = ("loopout", n, lid, saved[n] if saved[n] is not None else ("undef", n),
@@ -383,6 +388,30 @@ class Interp:
         if s.orelse:
             return self._block(s.orelse, st, act)
         return st
+
+    def _iter_source(self, it):
+        """(element term, [loop markers + conditions]) when iterating `it` is the same as running
+        its producer loop(s) again; None otherwise"""
+        if it[0] == "listobj":
+            h = self.heap[it[1]]
+            apps = [d for d in h["dyn"] if d[0] == "append"]
+            if not h["elts"] and len(apps) == 1 and len(h["dyn"]) == 1 and len(apps[0][1]) == 1:
+                pc0 = h.get("pc0", ())
+                apc = apps[0][2]
+                extra = apc[len(pc0):] if apc[:len(pc0)] == pc0 else \
+                    tuple(c for c in apc if c not in pc0)
+                extra = tuple(c for c in extra if c[0] != "fact")
+                return apps[0][1][0], extra
+            return None
+        if it[0] == "comp" and it[1] in ("list", "gen") and len(it[3]) == 1 and len(it[2]) == 1:
+            glid, git, conds = it[3][0]
+            elt = it[2][0]
+            if elt == ("elem", git, glid):
+                return elt, (("inloop", glid),) + tuple(conds)
+        if it[0] == "call" and it[1] in ("builtins.list", "builtins.tuple", "builtins.iter") \
+                and len(it[2]) == 1:
+            return self._iter_source(it[2][0])
+        return None
 
     @staticmethod
     def _after_marker(pc, marker):
@@ -426,6 +455,9 @@ class Interp:
         for k, v in end.ov.items():
             old = st.ov.get(k)
             if old != v:
+                if isinstance(k[1], tuple):
+                    # item stores made inside a loop body concern that iteration's element only
+                    continue
                 st.ov[k] = ("loopout", f"{k[1]}", lid,
                             old if old is not None else ("attr", k[0], k[1]), v)
 
@@ -450,6 +482,12 @@ class Interp:
             idx = self._eval_index(target.slice, st, act)
             self._emit("store", st, node, act, target="sub", base=base, idx=idx, value=v,
                        aug=aug)
+            if base[0] not in ("dictobj", "listobj") and is_const(idx) \
+                    and isinstance(idx[1], str):
+                # item store with a constant string key into an object the run did not create
+                # (e.g. a sub-dict of the parsed YAML document): later reads of the same item see
+                # the stored value (flow-sensitive, merged at joins like attribute stores)
+                st.ov[(base, ("key", idx[1]))] = v
             if base[0] in ("dictobj", "listobj"):
                 h = self.heap[base[1]]
                 rel = st.pc[len(h["pc0"]):] if st.pc[:len(h["pc0"])] == h["pc0"] else st.pc
@@ -679,6 +717,8 @@ class Interp:
     def _e_Subscript(self, e, st, act):
         base = self._eval(e.value, st, act)
         idx = self._eval_index(e.slice, st, act)
+        if is_const(idx) and isinstance(idx[1], str) and (base, ("key", idx[1])) in st.ov:
+            return self._under(st.ov[(base, ("key", idx[1]))], st.pc)
         return self._getitem(base, idx)
 
     def _getitem(self, base, idx):
@@ -823,6 +863,16 @@ class Interp:
         gens = []
         for g in e.generators:
             it = self._eval(g.iter, inner, act)
+            src = self._iter_source(it)
+            if src is not None and any(c[0] == "inloop" for c in src[1]):
+                # comprehension over an identity comprehension / appended list: same producer
+                elem, extra = src
+                lid = [c[1] for c in extra if c[0] == "inloop"][0]
+                self._assign(g.target, elem, inner, act, e)
+                pre = tuple(c for c in extra if c[0] != "inloop")
+                conds = pre + tuple(self._eval(c, inner, act) for c in g.ifs)
+                gens.append((lid, self.loops[lid]["iter"], conds))
+                continue
             lid = self.new_id()
             self.loops[lid] = {"iter": it, "func": act.fi.fq, "lineno": e.lineno,
                                "kind": "comp", "target": ast.unparse(g.target), "pc": st.pc}
@@ -1244,8 +1294,10 @@ class Interp:
             for pc_i, ov_i in reversed(exits[:-1]):
                 rel = tuple(c for c in pc_i[n0:] if c[0] != "inloop")
                 for k in set(merged) | set(ov_i):
-                    a = ov_i.get(k, ("attr", k[0], k[1]))
-                    b = merged.get(k, ("attr", k[0], k[1]))
+                    dflt = ("sub", k[0], C(k[1][1])) if isinstance(k[1], tuple) \
+                        else ("attr", k[0], k[1])
+                    a = ov_i.get(k, dflt)
+                    b = merged.get(k, dflt)
                     if a != b:
                         merged[k] = ("phi", _conj(rel), a, b) if rel else a
             st.ov = merged
